@@ -278,7 +278,36 @@ impl Prop for PTime {
                         Err(v) => return v,
                     }
                 }
-                let mut o = json!({"res": res, "now": ts_json(now),
+                // all the tests once more, in ONE evaluation of the entry: each on its own timestamp there as well
+                // ("( T1 -printf 1 -o -printf 0 ) ( T2 ... ) ..." - every group is true, so all of them are reached)
+                let mut all: Vec<String> = vec![];
+                if !reflink.is_empty() {
+                    all.push(format!("-{}", &reflink[..1]));
+                }
+                all.push("R/e".into());
+                for t in arr(&input["tests"]) {
+                    all.push("(".into());
+                    if t["t"] == "age" {
+                        let sign = match t["form"].as_str().unwrap_or("eq") {
+                            "gt" => "+",
+                            "lt" => "-",
+                            _ => "",
+                        };
+                        all.push(age_prim(t["kind"].as_str().unwrap_or("m"), t["unit"].as_str().unwrap_or("day")));
+                        all.push(format!("{}{}", sign, t["n"].as_u64().unwrap_or(0)));
+                    } else {
+                        all.push(t["alias"].as_str().unwrap_or("-newer").to_string());
+                        all.push(if selfref { "R/e".into() } else if reflink.is_empty() { "F".into() } else { "FL".into() });
+                    }
+                    all.extend(["-printf", "1", "-o", "-printf", "0", ")"].iter().map(|x| x.to_string()));
+                }
+                let errf = dir.parent().unwrap().join("stderr.txt");
+                let rall = run_find_inproc(&dir, &all, Some(to_system_time(now)), &errf);
+                if rall.panicked {
+                    return json!({"panic": true, "args": all});
+                }
+                let together: Vec<Value> = rall.out.iter().map(|b| json!(*b == b'1')).collect();
+                let mut o = json!({"res": res, "together": together, "now": ts_json(now),
                        "ent": {"a": ts_json(a), "m": ts_json(m), "c": ts_json(c)}, "rf": {"a": ts_json(ra), "m": ts_json(rm), "c": ts_json(rc)}});
                 if !reflink.is_empty() {
                     let (la, lm, lc) = stamps(&fl);
